@@ -284,15 +284,23 @@ def remote_opts(cols, lines):
     ys = sorted({y for y in (0, lines // 2, 255, 256, lines - 1) if 0 <= y < lines})
     cells = sorted({(0, 0), (0, cols - 1), (lines - 1, 0), (lines - 1, cols - 1), (lines // 2, cols // 2)})
     cur = [(x, y) for y in ys for x in xs + [cols]]
-    return {'buffer': ('sparse', cells), 'cursor': ('among', cur)}
+    regions = sorted({(t, b) for (t, b) in ((0, lines - 1), (1, lines - 2), (lines // 2, lines - 1), (0, lines // 2),
+                                            (1, lines - 1), (0, lines - 2)) if 0 <= t < b <= lines - 1})
+    out = {'buffer': ('sparse', cells), 'cursor': ('among', cur)}
+    if lines > 6 and regions:
+        out['margins'] = ('among', regions)
+    return out
 
 
 REMOTE_QUICK = [(9, 6)]
 REMOTE_THOROUGH = [(9, 6), (258, 2), (2, 258), (17, 9)]
 
 
-def remote_geoms(tier):
-    return REMOTE_QUICK if tier == 'quick' else REMOTE_THOROUGH
+def remote_geoms(tier, big=True):
+    """big=False: without the 258-sized screens (for the whole-sweep families, whose symbolic counts and
+    regions make one path per row there)."""
+    gs = REMOTE_QUICK if tier == 'quick' else REMOTE_THOROUGH
+    return gs if big else [g for g in gs if max(g) < 100]
 
 
 def feed_csi(run, ctx, final, ndigits, tag='d'):
